@@ -727,8 +727,11 @@ def ge(a, b):
 def same(a, b):
     """semantic identity of two scalars (nan same as nan)."""
     if _conc(a) and _conc(b):
-        if isinstance(a, float) and isinstance(b, float) and math.isnan(a) and math.isnan(b):
-            return True
+        if isinstance(a, float) and isinstance(b, float):
+            if math.isnan(a) and math.isnan(b):
+                return True
+            # concrete floats on both sides: rounding noise of the host arithmetic is not a difference
+            return a == b or (math.isfinite(a) and math.isfinite(b) and math.isclose(a, b, rel_tol=1e-9, abs_tol=1e-12))
         return a == b
     if isinstance(a, z3.BoolRef) or isinstance(b, z3.BoolRef) or isinstance(a, bool) or isinstance(b, bool):
         return Beq(to_bool(a), to_bool(b))
